@@ -301,6 +301,24 @@ class Body:
                         d[dst].append((bi, None, "call", t))
                     else:
                         d[dst["l"]].append((bi, None, "partial", t))
+            # a local whose address is passed mutably to a call may be (re)defined by that call
+            mref = {}
+            for bi, b in enumerate(self.blocks):
+                for s in b["s"]:
+                    rv = s.get("rv")
+                    if rv and rv["k"] in ("ref", "raw") and rv.get("m") and isinstance(s.get("lhs"), int):
+                        pl = rv["pl"]
+                        if isinstance(pl, int):
+                            mref[s["lhs"]] = pl
+                        elif pl["p"] == ["*"] and pl["l"] in mref:
+                            mref[s["lhs"]] = mref[pl["l"]]
+            for bi, b in enumerate(self.blocks):
+                t = b["t"]
+                if t["k"] == "call":
+                    for a in t["args"]:
+                        l = op_local(a)
+                        if l in mref:
+                            d[mref[l]].append((bi, None, "mutarg", t))
             self._defs = d
         return self._defs
 
@@ -370,6 +388,17 @@ class Body:
                         continue
                     if rv is None:
                         continue
+                elif kind == "mutarg":
+                    t = payload
+                    callees.add(callee_of(t))
+                    if through_calls:
+                        for a in t["args"]:
+                            # the out-parameter itself is not an input
+                            al = op_local(a)
+                            if al is not None and al in seen:
+                                continue
+                            visit_op(a)
+                    continue
                 else:
                     t = payload
                     callees.add(callee_of(t))
